@@ -108,10 +108,42 @@ func gitlabBody(c *explore.Chooser) *explore.Case {
 	return cs
 }
 
+// githubBody: the real GithubReporter against a stateful fake of the review-comments API; the patch of the
+// first file decides where comments on unmodified lines are moved to.
+func githubBody(c *explore.Chooser) *explore.Case {
+	maxComments := []int{1, 50}[c.Free(2, "maxComments")]
+	patch := []string{"all-added", "partial"}[c.Free(2, "patch")]
+	showDups := c.Free(2, "showDuplicates") == 1
+	all := universe()
+	u := []reporter.Report{all[0], all[1], all[2], all[4], all[3]} // shared comment, other check same lines, problem on an unmodified line (8), second file
+	patches := map[string]string{u[0].Path.SymlinkTarget: reporter.VerifGHPatch(patch), u[4].Path.SymlinkTarget: reporter.VerifGHPatch("all-added")}
+	foreign := reporter.VerifComment{Path: u[0].Path.SymlinkTarget, Line: 4, Text: "a comment by somebody else\n"}
+	eq := reporter.VerifPendingFor(u[:1], showDups)
+	initial := [][]reporter.VerifComment{{}, {foreign}, eq}
+	res := reporter.VerifC17GitHubBFS(u, initial, patches, maxComments, showDups)
+	cs := &explore.Case{Input: map[string]any{"platform": "github", "maxComments": maxComments, "patch": patch, "showDuplicates": showDups, "problem_universe": len(u), "initial_stores": len(initial), "sample_state": res.SampleState},
+		Outcome: fmt.Sprintf("github states=%d", res.States)}
+	cs.Count("states", int64(res.States))
+	cs.Count("transitions", int64(res.Transitions))
+	cs.Count("traces_validated_against_impl", int64(res.Transitions))
+	cs.Count("github_states", int64(res.States))
+	cs.Count("github_transitions", int64(res.Transitions))
+	cs.Count("max_depth", int64(res.MaxDepth))
+	seen := map[string]bool{}
+	for _, v := range res.Violations {
+		if seen[v.Sig] {
+			continue
+		}
+		seen[v.Sig] = true
+		cs.Violate(fmt.Sprintf("github: %s patch=%s", v.Sig, patch), v.What, map[string]any{"event_path": v.Path, "maxComments": maxComments, "showDuplicates": showDups, "patch": patch})
+	}
+	return cs
+}
+
 func main() {
 	explore.Main(&explore.Config{
 		Property: "C17", Level: "model_checking",
-		Rule: "for each parameter cell (maxComments in {1,2,50} x reporter can/cannot delete x showDuplicates) a breadth-first search to closure over comment-store states: events run(R) for all 32 subsets R of each of two 5-problem universes drawn from (two problems of one check on the same lines, a third with the same summary but other details, another check on those lines, a second file, the same problem on another rule), initial stores {empty, stale pint comment, comment already equal to a pending one, both}; every transition calls the real reporter.Submit on a store whose equality / budget / deletion rules are the real GitLab and GitHub methods; budget, no-duplicate, coverage, stale-removal, idempotence and convergence invariants on every transition; platform layer: the same search through the real GitLabReporter (List/Create/Delete/Summary over HTTP) against a stateful fake of the merge-request discussions API, 3-problem universe, maxComments in {1,50} x showDuplicates, initial stores {empty, stale pint thread, thread equal to a pending comment, another user's comment with the same text, stale thread with a reply + a general comment}, environment events reply(thread) and system-note(thread) on pint's threads, plus foreign-discussion-untouched and API-use invariants",
+		Rule: "for each parameter cell (maxComments in {1,2,50} x reporter can/cannot delete x showDuplicates) a breadth-first search to closure over comment-store states: events run(R) for all 32 subsets R of each of two 5-problem universes drawn from (two problems of one check on the same lines, a third with the same summary but other details, another check on those lines, a second file, the same problem on another rule), initial stores {empty, stale pint comment, comment already equal to a pending one, both}; every transition calls the real reporter.Submit on a store whose equality / budget / deletion rules are the real GitLab and GitHub methods; budget, no-duplicate, coverage, stale-removal, idempotence and convergence invariants on every transition; platform layer: the same search through the real GitLabReporter (List/Create/Delete/Summary over HTTP) against a stateful fake of the merge-request discussions API, 3-problem universe, maxComments in {1,50} x showDuplicates, initial stores {empty, stale pint thread, thread equal to a pending comment, another user's comment with the same text, stale thread with a reply + a general comment}, environment events reply(thread) and system-note(thread) on pint's threads, plus foreign-discussion-untouched and API-use invariants; and through the real GithubReporter (Destinations/List/Create/IsEqual with its line fixing/Summary) against a stateful fake of the review-comments API: 5-problem universe incl. a problem on an unmodified line, patch of the first file in {all lines added, only lines 4-5 modified}, maxComments in {1,50} x showDuplicates, initial stores {empty, somebody else's comment, a comment equal to a pending one}",
 		Assumptions: []string{
 			"cells space: the store is an in-memory Commenter whose List only returns pint's own comments; which comments are pint's own is decided by the platform code, covered by the gitlab space (GitHub's List does not filter by author and cannot delete, so it has no such decision)",
 			"gitlab space: discussions that are not pint's are kept as a set (List skips them, so their multiplicity cannot influence a run); at most one reply and one system note per thread",
@@ -120,6 +152,7 @@ func main() {
 		Spaces: []*explore.Space{
 			{Name: "cells", Body: body, Bound: func(string) int { return -1 }},
 			{Name: "gitlab", Body: gitlabBody, Bound: func(string) int { return -1 }},
+			{Name: "github", Body: githubBody, Bound: func(string) int { return -1 }},
 		},
 		BudgetS: func(string) int { return 600 },
 	})
